@@ -41,6 +41,11 @@ def run(ctx, config='rel-all'):
         nccf += len([e for e in v[1].events if e.kind == 'store' and arena.bump_field(e) and arena.bump_field(e)[1] == 'current_chunk_footer'])
         c01.check_ccf_stores(ctx, key, v[0], v[1], 'R5')
     ctx.floor('R5', nccf, 12, 'stores to current_chunk_footer over the entry points')
+    # ---- R6 allocated_bytes_including_metadata() counts footers through the raw chunk iterator: that count is the number of
+    # chunks held only if the iterator starts at the current chunk, follows prev and stops at nothing but the sentinel (C10.R2)
+    from .. import runner
+    from . import c10
+    c10.check_raw_iterator(runner.Sub(ctx, 'R6', 'C10'), db, config, A, only_raw=True)
     # ---- O2 accessors
     val = A.get('allocated_bytes')
     if val:
